@@ -54,35 +54,48 @@ func (o *oracle) isModule(m string) bool {
 
 func moduleRelative(m string) bool { return !(m == "" || m == "environment") }
 
-// visible file loaders for a name (lower-cased segments): "g" first (parent first), then at most one module
+// visible file loaders for a name (lower-cased segments), in the order they are asked: "g" first wherever it is a parent
+// (or the first member), then the module loaders that can answer.  A module loader answers names that start with its
+// module name; a module called `environment` is not module-relative (isGlobal): it serves unqualified names as well, and
+// qualified ones only when they start with `environment`.
 func (o *oracle) loadersFor(key []string) []string {
-	ls := []string{"g"}
 	if len(key) == 0 {
-		return ls
+		return []string{"g"}
 	}
+	modCan := func(m string) bool { return key[0] == m || (m == "environment" && len(key) == 1) }
+	var ls []string
 	switch {
 	case o.s.via == "g":
-	case o.s.via == "e":
-		// flat topology: a qualified name that starts with a module name is routed to that module ONLY (the global loader
-		// is a sibling, not a parent); every other name is offered to the global loader first, then to the modules — of
-		// which only the one the name is the name of can answer (its init_typeset)
-		if o.isModule(key[0]) {
-			if len(key) >= 2 {
-				return []string{key[0]}
-			}
-			ls = append(ls, key[0])
-		}
+		ls = []string{"g"}
 	case strings.HasPrefix(o.s.via, "m:"):
-		m := o.s.via[2:]
-		if key[0] == m || (m == "environment" && len(key) == 1) {
+		ls = []string{"g"}
+		if m := o.s.via[2:]; modCan(m) {
+			ls = append(ls, m)
+		}
+	case strings.HasPrefix(o.s.via, "f:"):
+		// a top-level module loader: nobody above it but the system loader
+		if m := o.s.via[2:]; modCan(m) {
 			ls = append(ls, m)
 		}
 	default:
-		if o.isModule(key[0]) {
-			ls = append(ls, key[0])
-		} else if len(key) == 1 && o.isModule("environment") {
-			// a module called `environment` is not module-relative: its unqualified names are served too
-			ls = append(ls, "environment")
+		// the dependency loader.  A qualified name that starts with a module name is routed to that module ONLY (in the
+		// flat topology `e` the global loader is a sibling, not a parent, and is not asked at all); every other name is
+		// offered to the members in order — the global loader first — of which only the module the name is the name of
+		// (its init_typeset) and a module called `environment` can answer an unqualified name, and none a qualified one
+		if len(key) >= 2 {
+			if o.isModule(key[0]) {
+				if o.s.via == "e" {
+					return []string{key[0]}
+				}
+				return []string{"g", key[0]}
+			}
+			return []string{"g"}
+		}
+		ls = []string{"g"}
+		for _, m := range o.s.mods {
+			if modCan(m) {
+				ls = append(ls, m)
+			}
 		}
 	}
 	return ls
@@ -213,20 +226,40 @@ func (o *oracle) shadowedProvider(key []string) bool {
 	return false
 }
 
-// routeSplit: in the flat topology a name M::…::T that starts with a module name is routed to module M only, yet some
-// prefix of it is the derived name of a type-set file of the GLOBAL loader (a sibling) that lists the next segment
+// routeSplit: some prefix of the name is the derived name of a type-set file that lists the next segment, in a loader
+// that answers the PREFIX but is not on the route of the full name.  (Flat topology: a name M::…::T that starts with a
+// module name is routed to module M only, the type set sits below the sibling global loader.  A module called
+// `environment`: it serves the unqualified name TS but no qualified name TS::T.)  Whether the member is visible then
+// depends on whether that type set has been loaded before.
 func (o *oracle) routeSplit(key []string) bool {
-	if o.s.via != "e" || len(key) < 2 || !o.isModule(key[0]) {
+	if len(key) < 2 {
 		return false
 	}
+	vis := map[string]bool{}
+	for _, l := range o.loadersFor(key) {
+		vis[l] = true
+	}
 	for n := 1; n < len(key); n++ {
-		for i := range o.s.files {
-			f := &o.s.files[i]
-			p := o.paths[f]
-			if loaderOf(p) == "g" && keyEq(o.impliedKey(p), key[:n]) && f.body.kind == "typeset" {
-				for _, t := range f.body.types {
-					if strings.ToLower(t) == key[n] {
-						return true
+		for _, c := range o.candidates(key[:n]) {
+			if vis[c.loader] || c.f.body.kind != "typeset" {
+				continue
+			}
+			for _, t := range c.f.body.types {
+				if strings.ToLower(t) == key[n] {
+					return true
+				}
+			}
+		}
+		if o.s.via == "e" && o.isModule(key[0]) {
+			// any type-set file of the sibling global loader at a prefix (it may have been loaded as a member of another set)
+			for i := range o.s.files {
+				f := &o.s.files[i]
+				p := o.paths[f]
+				if loaderOf(p) == "g" && keyEq(o.impliedKey(p), key[:n]) && f.body.kind == "typeset" {
+					for _, t := range f.body.types {
+						if strings.ToLower(t) == key[n] {
+							return true
+						}
 					}
 				}
 			}
